@@ -3,6 +3,7 @@ package main
 import (
 	"encoding/json"
 	"fmt"
+	"time"
 
 	"github.com/fabiolb/fabio/config"
 	"github.com/fabiolb/fabio/registry/consul"
@@ -37,6 +38,94 @@ type slotState struct {
 
 const maxSlots = 8
 
+// catalogSim is the fake catalog's state over a history: slots = fixed (node, service id) pairs.
+type catalogSim struct {
+	slots  map[int]*slotState
+	index  uint64
+	or     *oracle
+	prefix string
+	env    map[string]string
+}
+
+func newCatalogSim(prefix, dc string) *catalogSim {
+	return &catalogSim{slots: map[int]*slotState{}, index: 10, or: newOracle(), prefix: prefix, env: map[string]string{"DC": dc}}
+}
+
+func (c *catalogSim) apply(evs []histEvent) {
+	for _, ev := range evs {
+		if ev.Slot < 0 || ev.Slot >= maxSlots {
+			continue
+		}
+		st := c.slots[ev.Slot]
+		switch ev.Op {
+		case "register":
+			if ev.Reg == nil {
+				continue
+			}
+			c.index++
+			if st == nil {
+				c.slots[ev.Slot] = &slotState{reg: *ev.Reg, create: c.index, modify: c.index, passing: true}
+			} else {
+				// the same service id registers again: CreateIndex stays, ModifyIndex moves
+				st.reg, st.modify = *ev.Reg, c.index
+			}
+			c.or.addReg(ev.Reg, c.prefix, c.env)
+		case "deregister":
+			if st != nil {
+				c.index++
+				delete(c.slots, ev.Slot)
+			}
+		case "fail":
+			if st != nil {
+				st.passing = false
+			}
+		case "pass":
+			if st != nil {
+				st.passing = true
+			}
+		}
+	}
+}
+
+// state returns the catalog entries, the passing checks and the number of distinct non-empty names among them.
+func (c *catalogSim) state() ([]catalogEntry, []*api.HealthCheck, int) {
+	var entries []catalogEntry
+	var passing []*api.HealthCheck
+	names := map[string]bool{}
+	for k := 0; k < maxSlots; k++ {
+		st := c.slots[k]
+		if st == nil {
+			continue
+		}
+		entries = append(entries, entryOf(k, &st.reg, st.create, st.modify))
+		if st.passing {
+			passing = append(passing, &api.HealthCheck{Node: nodeOf(k), CheckID: "c", Status: "passing", ServiceID: sidOf(k), ServiceName: st.reg.Name, ServiceTags: st.reg.Tags})
+			if st.reg.Name != "" {
+				names[st.reg.Name] = true
+			}
+		}
+	}
+	return entries, passing, len(names)
+}
+
+// makeConfigTimed runs f (a call of the real makeConfig) and waits for it with a ceiling: makeConfig talks to an
+// in-process fake and normally answers within a millisecond; one that has not answered after blockLimit is
+// blocked (Watch would never send another update). After the first blocked call of a process the ceiling drops:
+// the tree is known to be broken, the first case is the one that is reported.
+var blockLimit = 5 * time.Second
+
+func makeConfigTimed(f func() string) (text string, blocked bool) {
+	ch := make(chan string, 1)
+	go func() { ch <- f() }()
+	select {
+	case text = <-ch:
+		return text, false
+	case <-time.After(blockLimit):
+		blockLimit = 150 * time.Millisecond
+		return "", true
+	}
+}
+
 func runHistory(raw json.RawMessage) (interface{}, error) {
 	var in histIn
 	if err := json.Unmarshal(raw, &in); err != nil {
@@ -48,67 +137,21 @@ func runHistory(raw json.RawMessage) (interface{}, error) {
 	}
 	cfg := &config.Consul{Addr: addr, Scheme: "http", TagPrefix: in.Prefix, ServiceMonitors: 1}
 	mon := consul.NewServiceMonitor(client, cfg, in.DC)
-	env := map[string]string{"DC": in.DC}
-	or := newOracle()
-	slots := map[int]*slotState{}
-	var index uint64 = 10
+	sim := newCatalogSim(in.Prefix, in.DC)
 	steps := []map[string]interface{}{}
 	for _, evs := range in.Steps {
-		for _, ev := range evs {
-			if ev.Slot < 0 || ev.Slot >= maxSlots {
-				continue
-			}
-			st := slots[ev.Slot]
-			switch ev.Op {
-			case "register":
-				if ev.Reg == nil {
-					continue
-				}
-				index++
-				if st == nil {
-					slots[ev.Slot] = &slotState{reg: *ev.Reg, create: index, modify: index, passing: true}
-				} else {
-					// the same service id registers again: CreateIndex stays, ModifyIndex moves
-					st.reg, st.modify = *ev.Reg, index
-				}
-				or.addReg(ev.Reg, in.Prefix, env)
-			case "deregister":
-				if st != nil {
-					index++
-					delete(slots, ev.Slot)
-				}
-			case "fail":
-				if st != nil {
-					st.passing = false
-				}
-			case "pass":
-				if st != nil {
-					st.passing = true
-				}
-			}
-		}
-		var entries []catalogEntry
-		var passing []*api.HealthCheck
-		names := map[string]bool{}
-		for k := 0; k < maxSlots; k++ {
-			st := slots[k]
-			if st == nil {
-				continue
-			}
-			entries = append(entries, entryOf(k, &st.reg, st.create, st.modify))
-			if st.passing {
-				passing = append(passing, &api.HealthCheck{Node: nodeOf(k), CheckID: "c", Status: "passing", ServiceID: sidOf(k), ServiceName: st.reg.Name, ServiceTags: st.reg.Tags})
-				if st.reg.Name != "" {
-					names[st.reg.Name] = true
-				}
-			}
-		}
+		sim.apply(evs)
+		entries, passing, names := sim.state()
 		fake.set(entries)
-		text := consul.VerifC14MonitorConfig(mon, passing)
-		if served := fake.lookups(); served != len(names) {
-			return nil, fmt.Errorf("fake catalog served %d of %d service lookups", served, len(names))
+		text, blocked := makeConfigTimed(func() string { return consul.VerifC14MonitorConfig(mon, passing) })
+		if blocked {
+			steps = append(steps, map[string]interface{}{"blocked": true})
+			break
 		}
-		or.addText(text)
+		if served := fake.lookups(); served != names {
+			return nil, fmt.Errorf("fake catalog served %d of %d service lookups", served, names)
+		}
+		sim.or.addText(text)
 		step := map[string]interface{}{"text": text}
 		// what fabio's own parser reads from the text (implementation-side oracle of the spec)
 		if defs, err := routeParse(text); err != nil {
@@ -118,7 +161,7 @@ func runHistory(raw json.RawMessage) (interface{}, error) {
 		}
 		steps = append(steps, step)
 	}
-	return map[string]interface{}{"steps": steps, "oracle": or.json()}, nil
+	return map[string]interface{}{"steps": steps, "oracle": sim.or.json()}, nil
 }
 
 // ---- generator ------------------------------------------------------------------------------------------
